@@ -26,6 +26,7 @@ import (
 	"github.com/grafana/cog/internal/jennies/typescript"
 	"github.com/grafana/cog/internal/languages"
 	"github.com/grafana/cog/verifx/irgen"
+	"github.com/grafana/cog/verifx/vx"
 )
 
 // contextConfigs are the enumerated pipeline configurations: no language (what
@@ -41,7 +42,13 @@ func (noLanguage) Jennies(_ languages.Config) *codejen.JennyList[languages.Conte
 func (noLanguage) CompilerPasses() compiler.Passes                                  { return nil }
 
 func newContextConfig(name string) (*codegen.Pipeline, languages.Language) {
-	pipeline := &codegen.Pipeline{Output: codegen.Output{Builders: true}}
+	// the constructor every real entry point goes through (PipelineFromFile, the CLI): it
+	// installs the progress reporter and the directories; a struct literal would not
+	pipeline, err := codegen.NewPipeline()
+	if err != nil {
+		vx.Fatalf("codegen.NewPipeline: %v", err)
+	}
+	pipeline.Output.Builders = true
 	switch name {
 	case "none":
 		return pipeline, noLanguage{}
@@ -85,19 +92,53 @@ func evalContext(spec irgen.SchemaSpec, lang string, dump bool) evalResult {
 		}()
 		ctx, err = pipeline.ContextForLanguage(language, input)
 	}()
-	switch {
-	case pmsg != "":
-		// A crash of a compiler pass / veneer / nil-check generator is the subject of
-		// C04 and C06 (which run the same chains); here it only means "no context to judge".
-		res.Counters["context:panic-not-judged (C04/C06) @ "+lang]++
-		if dump {
-			res.Real = "panic: " + pmsg + "\n" + pstack
+	if pmsg != "" || err != nil {
+		// Which stage failed? The same chain is run again with builders off (language passes
+		// and final passes only). If that fails too, the failure belongs to the passes — the
+		// subject of C04 and C06, which run the same chains — and there is no context to judge.
+		// If the passes succeed, the builder stage (derivation, veneer engine without rules,
+		// nil checks) failed on schemas the pipeline itself produced: A.2 demands builders for
+		// exactly the structs of those schemas, "never a crash".
+		p2, l2 := newContextConfig(lang)
+		p2.Output.Builders = false
+		var err2 error
+		var pmsg2 string
+		func() {
+			defer func() {
+				if p := recover(); p != nil {
+					pmsg2 = fmt.Sprint(p)
+				}
+			}()
+			_, err2 = p2.ContextForLanguage(l2, spec.Build())
+		}()
+		if pmsg2 != "" || err2 != nil {
+			if pmsg != "" {
+				res.Counters["context:passes-panic-not-judged (C04/C06) @ "+lang]++
+			} else {
+				res.Counters["context:passes-error-not-judged @ "+lang]++
+			}
+			if dump {
+				res.Real = fmt.Sprintf("passes fail: panic=%q err=%v\n%s", pmsg2, err2, pstack)
+			}
+			return res
 		}
-		return res
-	case err != nil:
-		res.Counters["context:error-not-judged @ "+lang]++
-		if dump {
-			res.Real = "error: " + err.Error()
+		res.Counters["clause:crash"]++
+		if pmsg != "" {
+			res.Findings = append(res.Findings, finding{
+				Kind: "context: crash: builder stage panics in " + topCogFrame(pstack) + ": " + normaliseMsg(pmsg),
+				What: fmt.Sprintf("Pipeline.ContextForLanguage(%s) panics (%s) while deriving builders from schemas its own passes produced without error — schemas ctx[%s] %s", lang, pmsg, lang, witness(spec)),
+			})
+			if dump {
+				res.Real = "panic: " + pmsg + "\n" + pstack
+			}
+		} else {
+			res.Findings = append(res.Findings, finding{
+				Kind: "context: builder stage fails: " + normaliseMsg(err.Error()),
+				What: fmt.Sprintf("Pipeline.ContextForLanguage(%s) returns an error (%v) from the builder stage although its passes succeed — schemas ctx[%s] %s", lang, err, lang, witness(spec)),
+			})
+			if dump {
+				res.Real = "error: " + err.Error()
+			}
 		}
 		return res
 	}
